@@ -344,7 +344,7 @@ def gen(rng):
         r = rng.random()
         if r < 0.22:
             n += 1
-            ops.append(('crst' if rng.random() < 0.2 else 'conn', n))
+            ops.append(('crst' if rng.random() < 0.3 else 'conn', n))
         elif r < 0.36:
             ops.append(('afault', rng.choice(TOLERATED + TOLERATED + OTHERS)))
         elif r < 0.58:
@@ -356,10 +356,12 @@ def gen(rng):
             ops.append(('cread', rng.randint(1, n)))
         elif r < 0.90 and n:
             ops.append((rng.choice(['close', 'hup']), rng.randint(1, n)))
-        elif r < 0.96:
+        elif r < 0.93:
             ops.append((rng.choice(['closeall', 'stop']),))
-        else:
+        elif r < 0.95:
             ops.append(('lclose', rng.choice(['close', 'hup'])))
+        else:
+            ops.append(('lread',))
     ops.append((rng.choice(['closeall', 'stop']),))
     return ops
 
